@@ -326,7 +326,10 @@ def check_trotterize(idx: Index, rep: Report):
         for d in ev_defs:
             v = d.value
             try:
-                if isinstance(v, ast.DictComp):
+                if isinstance(v, ast.DictComp) and norm(v.generators[0].iter) == "time.items()" and isinstance(v.generators[0].target, ast.Tuple):
+                    per_term = symx.to_sympy(v.value, {norm(v.generators[0].target.elts[1]): t, "n_trotter_steps": nst})
+                    kind = "per-term times"
+                elif isinstance(v, ast.DictComp):
                     per_term = symx.to_sympy(v.value, {"time": t, "n_trotter_steps": nst})
                     kind = "scalar time"
                 elif isinstance(v, ast.Call) and norm(v.func) in ("deepcopy", "copy.deepcopy", "dict") and norm(v.args[0]) == "time":
